@@ -4,6 +4,7 @@ import Resvg.Props.C11
 #print axioms Resvg.Props.C11.unknown_is_junk
 #print axioms Resvg.Props.C11.C11_junk_node
 #print axioms Resvg.Props.C11.C11_junk_invisible_partial
+#print axioms Resvg.Props.C11.C11_text_junk_invisible
 #print axioms Resvg.Props.C11.C11_junk_attr_invisible
 #print axioms Resvg.Props.C11.C11_defs_not_converted
 #print axioms Resvg.Props.C11.C11_converted_are_exactly
